@@ -28,6 +28,8 @@ type C09Case struct {
 	Events *C09Events `json:"events,omitempty"`
 	// RefLimit: when > 0 the client sets ReferenceMaxNum to it (workspace/didChangeConfiguration)
 	RefLimit int `json:"refLimit,omitempty"`
+	// Config: content of a luahelper.json (rules whose file patterns overlap), "" = none
+	Config string `json:"config,omitempty"`
 }
 
 type C09Events struct {
@@ -92,6 +94,13 @@ func genC09(t *rapid.T) C09Case {
 		use := fmt.Sprintf("local dm = require(\"%s\")\ndm.hello()\nprint(dm)\n", mod)
 		c.WS.Files = append(c.WS.Files, WSFile{Path: dirs[0] + "/" + mod + ".lua", Text: body}, WSFile{Path: dirs[1] + "/" + mod + ".lua", Text: body},
 			WSFile{Path: "use" + mod + ".lua", Text: use}, WSFile{Path: dirs[0] + "/user0.lua", Text: use}, WSFile{Path: dirs[1] + "/user1.lua", Text: use})
+	}
+	// configuration rules whose file patterns overlap: two IgnoreFileVars / IgnoreFileErrTypes entries match
+	// the same file (patterns are matched as substrings / regular expressions, in a map)
+	if rapid.IntRange(0, 3).Draw(t, "overlapRules") == 0 {
+		c.WS.Files = append(c.WS.Files, WSFile{Path: "port/gm.lua", Text: "print(IgA, IgB, IgC)\nlocal unusedgm = 1\nlocal tgm = { k = 1, k = 2 }\nprint(tgm)\n"})
+		c.Config = `{"BaseDir":"./","ShowWarnFlag":1,"IgnoreFileVars":[{"File":"gm.lua","Vars":["IgA"]},{"File":"port/gm.lua","Vars":["IgB"]},{"File":"port/","Vars":["IgA","IgB"]}],` +
+			`"IgnoreFileErrTypes":[{"File":"gm.lua","Types":[4]},{"File":"port/gm","Types":[5]}]}`
 	}
 	// a function with annotated parameters called with too few arguments from many files: the
 	// "fewer arguments than parameters" warning needs the definition's annotation, which the file
@@ -426,6 +435,9 @@ func checkC09(c C09Case, env *Env) *Violation {
 	var firstRun C09Run
 	for ri, run := range c.Runs {
 		req := &proto.Request{Cmd: "session", InitOptions: harness.J(harness.AllOn()), MaxProcs: run.MaxProcs}
+		if c.Config != "" {
+			req.Files = append(req.Files, proto.File{Path: "luahelper.json", Data: []byte(c.Config)})
+		}
 		for _, k := range run.Perm {
 			if k < len(c.WS.Files) {
 				f := c.WS.Files[k]
